@@ -417,6 +417,69 @@ theorem pca_small_sample_agrees_model (bs : List (List Vec)) (n : Nat) (u : Nat 
   rw [← h]
   exact rsum_congr (fun j _ => by rw [covariance_eq_centred])
 
+/-! ## Objects used more than once
+
+The property quantifies over datasets and configurations, not over what a trainer, a model or an output
+argument was used for before: a `PCA` object that has already decomposed another dataset, a covariance
+matrix that already holds an earlier result, must give exactly what freshly constructed objects give.
+The models `PcaObject.setData` / `meanvarInto` follow the C++ statement by statement, including remora's
+`resize`, which keeps the old numbers in the storage. -/
+
+/-- **`meanvar` into a used matrix.**  Whatever the output matrix held before (any shape, any content), after
+`meanvar(data, mean, C)` it has shape `d × d` and holds the covariance of the data. -/
+theorem meanvar_output_reuse (C : Mat) (bs : List (List Vec)) (d i j : Nat) :
+    (meanvarInto C bs d).rows = d ∧ (meanvarInto C bs d).cols = d
+    ∧ (meanvarInto C bs d).get i j = covariance bs i j := by
+  refine ⟨rfl, rfl, ?_⟩
+  simp [meanvarInto, Mat.divBy, Mat.add, Mat.clear, Mat.resize, covariance]
+
+/-- **`PCA::setData` does not depend on the history of the object.**  For every eigen-solver, every
+algorithm selection, every dataset and any two objects `o`, `o'` (whatever they decomposed before, in either
+branch, with any shape), `setData` leaves the same decomposition; only the whitening flag (configuration,
+set by the caller) is carried over. -/
+theorem pca_setData_history_independent (eig : EigenSolver) (norm : (Nat → Rat) → Rat) (alg : Nat)
+    (o o' : PcaObject) (bs : List (List Vec)) (n : Nat) (hw : o.whitening = o'.whitening) :
+    o.setData eig norm alg bs n = o'.setData eig norm alg bs n := by
+  unfold PcaObject.setData
+  split
+  · simp [PcaObject.setDataSmall, Mat.add, Mat.clear, Mat.resize, hw]
+  · simp [PcaObject.setDataStandard, hw]
+
+/-- in particular the re-used object returns the encoder / decoder of a fresh object with the same flag -/
+theorem pca_reused_object_models (eig : EigenSolver) (norm : (Nat → Rat) → Rat) (alg : Nat)
+    (o : PcaObject) (bs : List (List Vec)) (n m : Nat) :
+    (o.setData eig norm alg bs n).encoder m = ((PcaObject.fresh o.whitening).setData eig norm alg bs n).encoder m
+    ∧ (o.setData eig norm alg bs n).decoder = ((PcaObject.fresh o.whitening).setData eig norm alg bs n).decoder := by
+  rw [pca_setData_history_independent eig norm alg o (PcaObject.fresh o.whitening) bs n rfl]
+  exact ⟨rfl, rfl⟩
+
+/-- the small-sample branch returns, for every direction with non-negligible eigenvalue, the normalised lift
+`X0ᵀu / ‖X0ᵀu‖` of the eigenvector `u` of `X0·X0ᵀ/l` (to which `pca_small_sample_agrees_model` applies), on
+any object -/
+theorem pca_small_sample_object (eig : EigenSolver) (norm : (Nat → Rat) → Rat) (o : PcaObject)
+    (bs : List (List Vec)) (n j i : Nat)
+    (hi : (eig (count bs) (gramSmall bs n)).1 i > (1 / 1000000000000) * (eig (count bs) (gramSmall bs n)).1 0) :
+    (o.setDataSmall eig norm true bs n).V.get j i
+      = liftDirection bs (fun a => (eig (count bs) (gramSmall bs n)).2 a i) j
+        / norm (fun k => liftDirection bs (fun a => (eig (count bs) (gramSmall bs n)).2 a i) k) := by
+  simp only [PcaObject.setDataSmall, Mat.add, Mat.clear, Mat.resize]
+  rw [if_pos hi]
+  simp
+
+/-- **The `clear()` is necessary** (witness): without it the branch accumulates into what `resize` kept — an
+object that decomposed a 1×1 matrix before and a fresh one disagree on the same data. -/
+theorem pca_setData_without_clear_depends_on_history :
+    ∃ (eig : EigenSolver) (norm : (Nat → Rat) → Rat) (o o' : PcaObject) (bs : List (List Vec)) (n : Nat),
+      o.whitening = o'.whitening ∧
+      (o.setDataSmall eig norm false bs n).V.get 0 0 ≠ (o'.setDataSmall eig norm false bs n).V.get 0 0 := by
+  refine ⟨fun _ _ => (fun _ => 1, fun _ _ => 0), fun _ => 1,
+    { PcaObject.fresh false with V := { rows := 1, cols := 1, get := fun _ _ => 1 } }, PcaObject.fresh false,
+    [[[0, 0]]], 2, rfl, ?_⟩
+  simp [PcaObject.setDataSmall, PcaObject.fresh, Mat.add, Mat.resize, Mat.empty, liftDirection, count, rsum]
+  norm_num
+
+example : (1 : Rat) > (1 / 1000000000000) * 1 := by norm_num
+
 /-! ## Weighted training (LDA) -/
 
 /-- **Weights are scale invariant**: multiplying all example weights by `s ≠ 0` (in particular
